@@ -104,6 +104,9 @@ Float1Calls(x) ==
        \o <<Call("ts_f64", <<x>>), Call("fm_f64", <<x>>), Call("ts_f32", <<x>>)>>
 PowX == Specials \cup {Fin(n, e) : n \in Nums, e \in FExps} \cup {Fin(-n, e) : n \in Nums, e \in FExps}
 PowY == Specials \cup {Fin(k, 0) : k \in -5..8} \cup {Fin(1, -1), Fin(-1, -1), Fin(3, -1), Fin(-5, -2)}
+        \* whole-number exponents far beyond the small ones: 2^31, 2^32, 3 * 2^30, 2^24 (even), 2^23 - 1 (odd), 16, 32, 12, 99
+        \cup {Fin(1, 31), Fin(1, 32), Fin(3, 30), Fin(1, 24), Fin(-1, 31), Fin(8388607, 0), Fin(-8388607, 0),
+              Fin(1, 4), Fin(-1, 4), Fin(1, 5), Fin(3, 2), Fin(99, 0), Fin(-99, 0)}
 Float2Calls(x, y) == <<Call("f64_pow", <<x, y>>), Call("f32_pow", <<x, y>>)>>
 
 (* addresses and prefixes *)
